@@ -104,7 +104,7 @@ PROPS = {
         assumptions=["element comparison of the Rust type is the total order of the theorem (i64, u8, &str; f64 without NaN)"],
     ),
     "C02": dict(
-        modules=["StatsCI.Properties.C02"],
+        modules=["StatsCI.Properties.C02", "StatsCI.Properties.C02R"],
         anchors=["src/proportion.rs", "src/stats.rs", "src/confidence.rs"],
         needs_crit=True, exhaustive=True, exact_ops=set(),
         technique="Lean 4 theorems (Wilson score roots, domains, front-ends over exact reals) + exhaustive (n,k) differential correspondence with an exact-rational score-equation oracle",
@@ -114,13 +114,16 @@ PROPS = {
                    "every (n,k) with 0<=k<=n+1 up to a bound (and sampled to 1e9), all kinds; the oracle evaluates the score-equation residual of the "
                    "implementation's own bounds in exact dyadic arithmetic.",
         level_note="Trusted: Lean kernel + 3 standard axioms; z comes from statrs called directly by the harness (external oracle) for the request the "
-                   "model makes; float rounding of the closed form is not proved, it is measured (residual <= 64*2^-53*max(1,z^2)).",
+                   "model makes. Float rounding of the closed form is a theorem (C02R) under the standard model |fl x - x| <= u|x|, u <= 2^-10, fl exact on the counts: "
+                   "centre and span carry relative errors <= 7u and both Wilson bounds are within 8u of the exact roots for every n, k, z (Wald: (2.01+1.2|z|)u); that Interval::new "
+                   "accepts the rounded pair needs fl monotone and z >= 0 or an exact width >= 16u (refuted otherwise on a concrete non-monotone fl). The oracle's measured residual "
+                   "bound (64*2^-53*max(1,z^2)) is applied to IEEE doubles, whose overflow/underflow behaviour the standard model omits.",
         rule="exhaustive over (n,k), 0<=k<=n+1, n<=90 (quick) / 400 (thorough) x 4-14 confidences, plus sampled n up to 2^30, front-end data sets, "
              "ratio form for every k/n; distinct by sha1 of the input; non-trivial = all (rejections are part of the documented domain)",
         assumptions=["statrs Normal::inverse_cdf is the standard-normal quantile (validated under C06)"],
     ),
     "C03": dict(
-        modules=["StatsCI.Properties.C03"],
+        modules=["StatsCI.Properties.C03", "StatsCI.Properties.C03R"],
         anchors=["src/quantile.rs", "src/proportion.rs"],
         needs_crit=True, exhaustive=True, exact_ops={"qci"},
         technique="Lean 4 theorems (ranks, bracketing, permutation invariance, entry-point agreement) + differential correspondence exhaustive in n over a q grid",
@@ -129,7 +132,8 @@ PROPS = {
                    "permutation of the data, and ci / ci_sorted_unchecked / ci_max_size / ci_indices agree. The tie to the code runs all n up to a bound "
                    "x a grid of q containing every integer and half-integer value of q*n and its float neighbours, and data sets of i64/f64/&str/char "
                    "with ties and all permutations of a 7-element sample.",
-        level_note="Trusted: Lean kernel + 3 standard axioms; the float ranks (floor of a rounded product) are compared with the model run on IEEE floats, "
+        level_note="Trusted: Lean kernel + 3 standard axioms; the 'one position' allowance between float and exact ranks is a theorem (C03R.index_within_one, successes_within_one, ciIndices_within_one: "
+                   "under |fl x - x| <= u|x| and Wilson bounds within eps, (eps + u(1+eps)) n < 1, ranks differ by at most one position, and are equal away from integer crossings; examples show one position is attained); the float ranks (floor of a rounded product) are compared with the model run on IEEE floats, "
                    "the real-number rank theorems transfer to floats only up to 'one position' (checked by the oracle on every case).",
         rule="all n in 0..160 (quick) / 0..2000 (thorough) x q grid (every integer and half-integer q*n and both float neighbours) x 6 confidences; "
              "random n to 2e6; data-level cases for 4 element types; distinct by sha1 of the input",
@@ -227,17 +231,19 @@ PROPS = {
         assumptions=["no overflow/underflow in the generated streams"],
     ),
     "C01": dict(
-        modules=["StatsCI.Properties.C01"],
+        modules=["StatsCI.Properties.C01", "StatsCI.Properties.C01R"],
         anchors=["src/mean.rs", "src/stats.rs", "src/confidence.rs", "src/utils.rs"],
         needs_crit=True, exact_ops=set(),
         technique="Lean 4 theorems (exactness of the one-pass statistics and of the interval formula at exact arithmetic; which quantile is requested) + bit-level differential correspondence with an exact-rational oracle",
         level_text="Kernel-checked theorems over the model at exact real arithmetic, for every list of n >= 2 reals, every valid confidence and every external "
                    "quantile oracle: mean = sum/n, variance = sum (x-mean)^2/(n-1) (the clamp never fires), the request is t(n-1) at (1+L)/2 resp. L below the "
                    "population limit and z from it on, and the result is mean -/+ c s/sqrt n as TwoSided / UpperOneSided(lo) / LowerOneSided(hi); all call styles "
-                   "agree by definition. The rounding clause rests on C08. The model run on IEEE f32/f64 is compared with the implementation (5 call styles, "
+                   "agree by definition. The rounding clause is a theorem too (C01R): under the standard model of floating-point arithmetic |fl x - x| <= u|x| with n u <= 2^-10, the "
+                   "model run with rounding after every operation has its mean within 13 u mean|x|, its (clamped) variance within 44 u sum x^2/(n-1), its standard deviation "
+                   "within min(46 u Y/s, sqrt(49 u Y)) and both interval bounds within 47 u (mean|x| + halfwidth (1 + kappa)) of the exact ones. The model run on IEEE f32/f64 is compared with the implementation (5 call styles, "
                    "statistics) and the implementation's bounds are compared with the exact rational statistics of the data within a conditioning-aware tolerance.",
         level_note="Trusted: Lean kernel + 3 standard axioms; statrs' quantile is an external oracle called directly by the harness for the request the model makes; "
-                   "tolerance 16 u_F (mean|x| + halfwidth (1+kappa)) with kappa = sum x^2/((n-1) s^2), domain kappa u_F <= 2^-10.",
+                   "the oracle tolerance 16 u_F (mean|x| + halfwidth) + c min(50 u_F Y/s, sqrt(50 u_F Y))/sqrt n uses the constants of the theorems of C01R (which need n u_F <= 2^-10 and a monotone fl for Interval::new to accept the pair; beyond that the tolerance is applied, not proved).",
         rule="random samples: all n in 2..9, 60 (quick) / 400 (thorough) sizes in 10..300, sizes to 5000, both sides of the t->z switch (99 999..100 003), "
              "long samples (150 000 quick; 10^6 thorough); 7 generator styles; f32 and f64; random and grid levels in [0.001, 0.9999]; three kinds; "
              "distinct by sha1 of the input; all non-trivial (n >= 2, non-constant)",
